@@ -107,18 +107,52 @@ DeepFamily ==
     { MkN(P4, << {}, r21, r31, r42 \cup r43 >>, << {}, {}, {}, {} >>) :
         r21 \in One(1, {"alg", "val"}), r31 \in One(1, {"alg", "val"}), r42 \in One(2, {"alg", "val"}), r43 \in One(3, {"alg", "val"}) }
 
-(* quick: 5^3 reference structures x 3 feedback options on P1 (375) + kinds/packagings (44) + depth (43) *)
+(* joins of deep, distinct branches: five to seven algorithms.  An ancestor three edges away
+   from a join that is reachable through ONE of its branches only: a walk up the parents that
+   follows a single line of descent finds every ancestor in chains, diamonds and triangles,
+   but not here (which branch it follows depends on the iteration order of a set of nodes,
+   i.e. on the hash of the names: several assignments of names to roles are enumerated).
+     J5   r1 -> x -> y -> j <- r2               a 3-chain joined with a root
+     J6   r1 -> x -> y -> j <- z <- r2          a 3-chain joined with a 2-chain
+     J6k  r1 -> x -> j <- y <- r2, j -> k       two 2-chains joined, the join has a descendant
+     J7   r1 -> x1 -> y1 -> j <- y2 <- x2 <- r2 two 3-chains joined (symmetric: every order loses a root)
+   every edge at one granularity (alg / sv / val), every kind at the join               *)
+JNames == { <<"a", "b", "c", "d", "e", "f", "g">>, <<"g", "f", "e", "d", "c", "b", "a">>,
+            <<"c", "f", "a", "g", "d", "b", "e">>, <<"e", "a", "f", "b", "g", "c", "d">> }
+JNames2 == { <<"a", "b", "c", "d", "e", "f", "g">>, <<"g", "f", "e", "d", "c", "b", "a">> }
+JPkg == <<"t0", "t1", "t2", "t0", "t1", "t2", "t1">>
+JShape == << S11, S12, S21, S12, S11, S12, S11 >>
+JValT == << <<"s", "v">>, <<"s", "w">>, <<"r", "v">>, <<"s", "w">>, <<"s", "v">>, <<"s", "v">>, <<"s", "v">> >>
+JProf(nm, kinds) == [i \in DOMAIN kinds |-> Alg(JPkg[i], nm[i], kinds[i], JShape[i], "s", JValT[i])]
+JMk(nm, kinds, ins, gran) ==          \* ins[i] = the roles algorithm i takes input from
+    LET prof == JProf(nm, kinds) IN
+    MkN(prof, [i \in DOMAIN kinds |-> { Atom(prof[q], gran) : q \in ins[i] }], [i \in DOMAIN kinds |-> {}])
+(* roles  J5: 1 r1, 2 x, 3 y, 4 r2, 5 j    J6: 1 r1, 2 x, 3 y, 4 r2, 5 z, 6 j
+          J6k: 1 r1, 2 x, 3 r2, 4 y, 5 j, 6 k    J7: 1 r1, 2 x1, 3 y1, 4 r2, 5 x2, 6 y2, 7 j *)
+J5Ins  == << {}, {1}, {2}, {}, {3, 4} >>
+J6Ins  == << {}, {1}, {2}, {}, {4}, {3, 5} >>
+J6kIns == << {}, {1}, {}, {3}, {2, 4}, {5} >>
+J7Ins  == << {}, {1}, {2}, {}, {4}, {5}, {3, 6} >>
+JoinFamily ==
+    { JMk(nm, <<"task", "task", "task", "task", kj>>, J5Ins, gran) : nm \in JNames, kj \in Kinds, gran \in Grans }
+    \cup { JMk(nm, <<"task", "task", "analysis", "task", "task", kj>>, J6Ins, gran) : nm \in JNames, kj \in Kinds, gran \in Grans }
+    \cup { JMk(nm, <<"task", "task", "task", "task", kj, "task">>, J6kIns, gran) : nm \in JNames2, kj \in Kinds, gran \in Grans }
+    \cup { JMk(nm, <<"task", "analysis", "task", "task", "task", "regress", kj>>, J7Ins, gran) : nm \in JNames2, kj \in Kinds, gran \in Grans }
+
+(* quick: 5^3 reference structures x 3 feedback options on P1 (375) + kinds/packagings (44) + depth (43) + joins (108) *)
 ProgramsQuick(dummy) ==
     Family(P1, QuickSubsets, { NoFb, << {Atom(P1[3], "val")}, {}, {} >>, << {Atom(P1[3], "sv")}, {Atom(P1[3], "val")}, {} >> })
     \cup KFamily(KindsFew, { <<"t0", "t1", "t2">> })
     \cup KFamily({ <<"task", "analysis", "regress">> }, Partitions)
     \cup DeepFamily
-(* thorough: 8^3 x 5 on two profiles (5120) + 27 kind assignments x 5 packagings x 4 shapes (540) + depth (43) *)
+    \cup JoinFamily
+(* thorough: 8^3 x 5 on two profiles (5120) + 27 kind assignments x 5 packagings x 4 shapes (540) + depth (43) + joins (108) *)
 ProgramsThorough(dummy) ==
     Family(P1, AllSubsets, FbOptions(P1))
     \cup Family(P2, AllSubsets, FbOptions(P2))
     \cup KFamily(Kinds3, Partitions)
     \cup DeepFamily
+    \cup JoinFamily
 (* (TLC evaluates every zero-arity definition at start-up: the families take a dummy argument) *)
 ProgramsOfTier == IF Tier = "thorough" THEN ProgramsThorough(0) ELSE ProgramsQuick(0)
 =============================================================================
